@@ -420,6 +420,7 @@ def spec (s : Shape) (outSize kernel dil pad stride : List Int) : Option Shape :
     let kk := (attr.getI kernel 0 * attr.getI kernel 1).toNat
     let l := (List.range 2).map (fun i => attr.torchConvOut (attr.getI outSize i) (attr.getI kernel i) (attr.getI stride i)
       (attr.getI pad i) (attr.getI dil i))
+    if stride.any (· ≤ 0) then none else
     if kk = 0 ∨ s.getD 1 0 % kk ≠ 0 ∨ l.any (· ≤ 0) ∨ ((attr.getI l 0) * (attr.getI l 1)).toNat ≠ s.getD 2 0 then none
     else some [s.getD 0 0, s.getD 1 0 / kk, (attr.getI outSize 0).toNat, (attr.getI outSize 1).toNat]
 
@@ -461,7 +462,8 @@ def spec (s : Shape) (kernel dil pad stride : List Int) : Option Shape :=
   else
     let l := (List.range 2).map (fun i => attr.torchConvOut (s.getD (i + 2) 0) (attr.getI kernel i) (attr.getI stride i)
       (attr.getI pad i) (attr.getI dil i))
-    if l.any (· ≤ 0) then none
+    if stride.any (· ≤ 0) then none
+    else if l.any (· ≤ 0) then none
     else some [s.getD 0 0, s.getD 1 0 * (attr.getI kernel 0 * attr.getI kernel 1).toNat, ((attr.getI l 0) * (attr.getI l 1)).toNat]
 
 end im2col
